@@ -19,6 +19,7 @@ func init() {
 	register("C12_SMSCodeLogin", C12_SMSCodeLogin)
 	register("C12_MaxFiveOTPs", C12_MaxFiveOTPs)
 	register("C12_TOTPReplayGuard", C12_TOTPReplayGuard)
+	register("C12_TOTPConfirmRecordsCode", C12_TOTPConfirmRecordsCode)
 }
 
 func noGuards() flowOpts {
@@ -219,5 +220,33 @@ func C12_TOTPReplayGuard() {
 		rec := f.w.Store.GetRec(pid0)
 		lc := rec.(interface{ GetTOTPLastCode() string }).GetTOTPLastCode()
 		verif.Assert(lc == v.Code, "an accepted TOTP code is recorded as the last code")
+	}
+}
+
+// C12_TOTPConfirmRecordsCode: "the same TOTP code is not accepted twice in a row" starts at
+// enrolment: the code that confirms a TOTP enrolment is recorded as the account's last code
+// (for user types with replay protection), so that it cannot complete a login right afterwards
+// (C12_TOTPReplayGuard: the last code is refused).
+func C12_TOTPConfirmRecordsCode() {
+	verif.ReplayInInterpreter()
+	o := noGuards()
+	f := newFlow(o)
+	a := f.a[0]
+	f.w.Session.Set(authboss.SessionKey, a.pid)
+	f.w.Session.Del(authboss.SessionHalfAuthKey)
+	f.preS = f.w.Session.Snapshot()
+	v := symbolicValues()
+	_, panicked, _ := f.serve("POST /2fa/totp/confirm", v, nil)
+	if panicked || len(f.w.ErrH.Errs) > 0 {
+		return
+	}
+	post := f.w.Store.Get(a.pid)
+	sec, has := f.preS.Lookup2(totp2fa.SessionTOTPSecret)
+	enrolled := verif.And(verif.And(has, post.TOTPSecretKey == sec), post.TOTPSecretKey != a.u.TOTPSecretKey)
+	verif.Witness(enrolled, "totp-enrolled")
+	if enrolled {
+		rec := f.w.Store.GetRec(a.pid)
+		lc := rec.(interface{ GetTOTPLastCode() string }).GetTOTPLastCode()
+		verif.Assert(lc == v.Code, "the code that confirmed the enrolment is recorded as the last code")
 	}
 }
